@@ -14,11 +14,12 @@ CODE = ('code', '')        # ('code', pending identifier/number text)
 
 
 def is_ident_start(c):
-    return c == '_' or c.isalpha()
+    # Rust identifiers follow Unicode XID_Start / XID_Continue, which is what str.isidentifier implements
+    return c == '_' or c.isidentifier()
 
 
 def is_ident_char(c):
-    return c == '_' or c.isalnum()
+    return c == '_' or ('a' + c).isidentifier()
 
 
 def finish_word(w, toks):
